@@ -390,6 +390,65 @@ def f(x: FLOAT[...]):
     return x
 ''', ["x:F:2"])
 
+P("while_nested_if_loop_carried_only", '''
+@script()
+def f(x: FLOAT[...]):
+    acc = x
+    step = x * 0.5
+    c = op.ReduceSum(acc, keepdims=0) < 9.0
+    while c:
+        if op.ReduceSum(step, keepdims=0) > 2.0:
+            acc = acc + step
+            step = step * 0.5
+        else:
+            acc = acc + 1.5
+            step = step + 1.0
+        c = op.ReduceSum(acc, keepdims=0) < 9.0
+    return acc
+''', ["x:F:2", "x:F:"])
+
+P("for_nested_if_loop_carried_only", '''
+@script()
+def f(x: FLOAT[...], n: INT64):
+    acc = x
+    step = x + 1.0
+    for i in range(n):
+        if op.ReduceSum(step, keepdims=0) > 3.0:
+            acc = acc - step
+            step = step * 0.5
+        else:
+            acc = acc * 2.0
+            step = step + acc
+    return acc
+''', ["x:F:2 n:I:"])
+
+P("while_inner_for_carried", '''
+@script()
+def f(x: FLOAT[...]):
+    acc = x
+    w = x * 0.0 + 1.0
+    c = op.ReduceSum(acc, keepdims=0) < 8.0
+    while c:
+        for j in range(2):
+            w = w + 0.5
+        acc = acc + w
+        c = op.ReduceSum(acc, keepdims=0) < 8.0
+    return acc
+''', ["x:F:2"])
+
+P("for_swap_carried", '''
+@script()
+def f(x: FLOAT[...], y: FLOAT[...], n: INT64):
+    a = x
+    b = y
+    t = x * 0.0
+    for i in range(n):
+        t = a
+        a = b + t
+        b = t * 2.0
+    return a
+''', ["x:F:2 y:F:2 n:I:"])
+
 # ---------------------------------------------------------------- sub-function calls
 P("call_helper", '''
 @script()
@@ -732,6 +791,19 @@ class Gen:
         c = self.fresh("c")
         thr = self.r.choice(["3.0", "6.0"])
         self.lines.append(" " * indent + f"{c} = op.ReduceSum({tgt}, keepdims=0) < {thr}")
+        others = [n for n in carried if n != tgt]
+        if others and self.r.random() < 0.6:
+            # a second variable that is only carried around the loop, updated inside a nested if
+            aux = self.r.choice(others)
+            self.lines.append(" " * indent + f"while {c}:")
+            self.lines.append(" " * (indent + 4) + f"if op.ReduceSum({aux}, keepdims=0) > {self.r.choice(['0.5', '2.0'])}:")
+            self.lines.append(" " * (indent + 8) + f"{tgt} = op.Abs({tgt}) + op.Abs({aux}) + 1.0")
+            self.lines.append(" " * (indent + 8) + f"{aux} = {aux} * 0.5")
+            self.lines.append(" " * (indent + 4) + "else:")
+            self.lines.append(" " * (indent + 8) + f"{tgt} = op.Abs({tgt}) + 1.5")
+            self.lines.append(" " * (indent + 8) + f"{aux} = {aux} + 1.0")
+            self.lines.append(" " * (indent + 4) + f"{c} = op.ReduceSum({tgt}, keepdims=0) < {thr}")
+            return
         self.lines.append(" " * indent + f"while {c}:")
         self.lines.append(" " * (indent + 4) + f"{tgt} = op.Abs({tgt}) + {self.r.choice(['1.0', '2.0'])}")
         self.lines.append(" " * (indent + 4) + f"{c} = op.ReduceSum({tgt}, keepdims=0) < {thr}")
